@@ -77,6 +77,10 @@ func newBaseFromLog(log map[string]string) Base {
 	}
 }
 
+func (r *Base) setComment(comment string) {
+	r.Comment = comment
+}
+
 func (r Base) Padding(i int) string {
 	if i >= len(r.Paddings) {
 		return ""
